@@ -9,8 +9,8 @@ import time
 from . import build
 
 ROOT = build.ROOT
-EVID = os.path.join(ROOT, "evidence")
-REPLAYS = os.path.join(ROOT, "replays")
+EVID = os.environ.get("VERIF_EVIDENCE_DIR", os.path.join(ROOT, "evidence"))
+REPLAYS = os.environ.get("VERIF_REPLAY_DIR", os.path.join(ROOT, "replays"))
 LOGS = os.path.join(build.BUILD, "logs")
 KNOWN = os.path.join(ROOT, "known_findings.json")
 
@@ -59,7 +59,7 @@ def _sanitize(s):
     return re.sub(r"[^A-Za-z0-9_.=-]+", "_", s)[:120]
 
 
-def run_family(res, prop, family, variant, cases, seed, tier, cells=None, extra_args=None, propfilter=True, hang=60,
+def run_family(res, prop, family, variant, cases, seed, tier, cells=None, extra_args=None, propfilter=True, hang=None,
                budget=None):
     """Run harness/<family>.cpp built for `variant`; merge its summary into res."""
     try:
@@ -70,7 +70,9 @@ def run_family(res, prop, family, variant, cases, seed, tier, cells=None, extra_
     os.makedirs(LOGS, exist_ok=True)
     out = os.path.join(LOGS, "%s-%s-%s-%d.jsonl" % (prop, family, variant, os.getpid()))
     cmd = [binary, "--cases", str(cases), "--seed", str(seed), "--jobs", str(min(16, os.cpu_count() or 1)),
-           "--logdir", LOGS, "--out", out, "--hang", str(hang)]
+           "--logdir", LOGS, "--out", out]
+    if hang:
+        cmd += ["--hang", str(hang)]
     if propfilter:
         cmd += ["--prop", prop]
     if cells:
@@ -144,7 +146,7 @@ def run_family(res, prop, family, variant, cases, seed, tier, cells=None, extra_
     for f in bykey.values():
         if f.key.endswith(":hang"):
             # a watchdog hit is inconclusive unless it repeats on a re-run of the same case
-            again = replay_case(f.replay_extra, timeout=hang + 30)
+            again = replay_case(f.replay_extra, timeout=(hang or 30) + 30)
             if again == "hang":
                 res.findings.append(f)
             else:
